@@ -203,6 +203,16 @@ WHICH = {'_cache_': 0, 'right_cache': 1, 'left_cache': 2}
 class CacheWriteMixin:
     caching_cases = (True,)
     modes = ('sound',)
+    trusted_keys = ("the keys of an operator's caches are ids of variables of its operands: right_cache of the right operand's "
+                    "variables (LogicalOperator.__post_init__), _cache_ of both operands' (BinaryOperator.__post_init__)",)
+
+    def setup(self, eng):
+        sts = super().setup(eng)
+        for st in sts:
+            n = st.ghost['self']
+            st.assume(z3.Map(Z.IMP_D, CacheKeys(n, z3.IntVal(WHICH['right_cache'])), Z.SubIds(Z.f_right(n))) == z3.K(Z.I, z3.BoolVal(True)),
+                      z3.Map(Z.IMP_D, CacheKeys(n, z3.IntVal(WHICH['_cache_'])), Z.SubIds(n)) == z3.K(Z.I, z3.BoolVal(True)))
+        return sts
 
     def getattr(self, eng, st, recv, name):
         if isinstance(recv, Obj) and recv.kind == 'cache' and name == 'keys':
@@ -218,7 +228,7 @@ class CacheWriteMixin:
         if not isinstance(d, D) or out is None:
             raise OutOfSubset("cache.insert arguments", node)
         st = st.clone()
-        st.ghost['last_insert'] = {'which': recv.data['which'], 'map': st.dicts[d.ref],
+        st.ghost['last_insert'] = {'which': recv.data['which'], 'map': st.dicts[d.ref], 'of': recv.data['of'],
                                    'label': eng.to_z3_bool(eng.truth(st, out)), 'line': node.lineno}
         return [(st, NONE)]
 
@@ -233,6 +243,11 @@ class CacheWriteMixin:
                    line=ins['line'])
         eng.oblige(st, f"C05/cache-write@L{ins['line']}/stored-binding-is-part-of-the-yielded-row", row.extends(ins['map']),
                    line=ins['line'])
+        # ... and not weaker than it on the cache's keys: a key the row binds and the entry leaves open is a wildcard, so
+        # the entry would claim coverage (and this truth value) for bindings that were never evaluated
+        keys = CacheKeys(ins['of'], z3.IntVal(WHICH[ins['which']]))
+        eng.oblige(st, f"C05/cache-write@L{ins['line']}/stored-binding-binds-every-cache-key-the-row-binds",
+                   z3.Map(Z.IMP_D, z3.Map(Z.AND_D, row.has, keys), ins['map'].has) == z3.K(Z.I, z3.BoolVal(True)), line=ins['line'])
 
     def on_yield(self, eng, st, v, ordinal, node):
         res = super().on_yield(eng, st, v, ordinal, node)
@@ -245,15 +260,18 @@ FALSE_SV = C(False)
 
 
 class ComparatorCacheWrite(CacheWriteMixin, ComparatorEval):
-    props = ('C05', 'C01', 'C02')
+    trusted = tuple(getattr(ComparatorEval, 'trusted', ())) + CacheWriteMixin.trusted_keys
+    props = ('C05', 'C01', 'C02', 'C04', 'C18')
 
 
 class ANDCacheWrite(CacheWriteMixin, ANDEval):
-    props = ('C05', 'C01', 'C02', 'C03')
+    trusted = tuple(getattr(ANDEval, 'trusted', ())) + CacheWriteMixin.trusted_keys
+    props = ('C05', 'C01', 'C02', 'C03', 'C04', 'C18')
 
 
 class ElseIfCacheWrite(CacheWriteMixin, ElseIfEval):
-    props = ('C05', 'C01', 'C02', 'C03')
+    trusted = tuple(getattr(ElseIfEval, 'trusted', ())) + CacheWriteMixin.trusted_keys
+    props = ('C05', 'C01', 'C02', 'C03', 'C04', 'C18')
 
 
 CONTRACTS += [ComparatorCacheWrite, ANDCacheWrite, ElseIfCacheWrite]
